@@ -377,11 +377,16 @@ func (d *Decls) strLit(s string) string {
 		return smtString(s)
 	}
 	name := sym(fmt.Sprintf("str!%x", hashStr(s)) + "!" + mangle(s))
-	d.sortOf(types.Typ[types.String])
+	d.strUFDecls()
 	if !d.seen["strlit:"+s] {
 		d.ufLits = append(d.ufLits, name)
 	}
-	d.add("strlit:"+s, fmt.Sprintf("(declare-const %s Str)", name))
+	decl := fmt.Sprintf("(declare-const %s Str)\n(assert (= (strlen %s) %d))", name, name, len(s))
+	if s == "" {
+		// the empty string is the only string of length 0
+		decl += fmt.Sprintf("\n(assert (forall ((s Str)) (! (=> (= (strlen s) 0) (= s %s)) :pattern ((strlen s)))))", name)
+	}
+	d.add("strlit:"+s, decl)
 	return name
 }
 
